@@ -7,6 +7,7 @@
 package c07
 
 import (
+	"regexp"
 	"encoding/json"
 	"fmt"
 	"strings"
@@ -28,6 +29,14 @@ type construct struct {
 	After []string
 	Last  bool // the hole is the last evaluated sub-expression (nothing pending): trivial unless a handler is present
 }
+
+// StopIterErr is the iteration protocol's own end signal: raised inside an iterator body, a native
+// iteration helper or a property-call list chain over natives it legitimately ends the iteration.
+// It is injected only into constructs free of those (operators, literals, calls, chain arguments,
+// conditionals, assignments, function bodies, chains with a literal / variable / method callee).
+var iterationMachinery = regexp.MustCompile(`<\{|yield|recur|\.map|\.select|\.find|\.reduce|\.sum|\.T\b|\.any\?|\.all\?|\.zip|\.withI|\.A\b|\.len|Arr\.new|Int\.new|Either\.newVal|callProp|\.try|bear`)
+
+func stopIterOK(c construct) bool { return !iterationMachinery.MatchString(c.Src) }
 
 var catalogue = []construct{
 	// operators
@@ -270,6 +279,7 @@ func run(t vt.Failer, c Case, fatal bool) {
 	}
 	vt.Eval()
 	vt.Class("handler " + c.Handler)
+	vt.Class("raised kind " + c.Kind)
 	if !catalogue[c.Construct].Last || c.Handler != "none" || c.Outer != 0 {
 		vt.NonTrivial(fmt.Sprintf("%d|%d|%s", c.Construct, c.Outer, c.Handler), func() any {
 			return map[string]string{"construct": catalogue[c.Construct].Src, "outer": outers[c.Outer], "handler": c.Handler, "raises": c.Kind}
@@ -299,7 +309,11 @@ func TestCatalogueMatrix(t *testing.T) {
 				if !vt.Thorough() && oi > 0 && h != "none" && h != "try" && (ci+oi)%3 != int(vt.Cfg.Seed)%3 {
 					continue // quick: thoughtful handlers x nested forms are sampled by seed
 				}
-				run(t, Case{Construct: ci, Outer: oi, Handler: h, Kind: errKinds[(k+int(vt.Cfg.Seed))%len(errKinds)]}, false)
+				kind := errKinds[(k+int(vt.Cfg.Seed))%len(errKinds)]
+				if stopIterOK(catalogue[ci]) && (k+int(vt.Cfg.Seed))%4 == 0 {
+					kind = "StopIterErr"
+				}
+				run(t, Case{Construct: ci, Outer: oi, Handler: h, Kind: kind}, false)
 			}
 		}
 	}
@@ -314,6 +328,9 @@ func TestRandomCells(t *testing.T) {
 	vt.Check(t, vt.N(3000, 120000), func(rt *rapid.T) {
 		c := Case{Construct: rapid.IntRange(0, len(catalogue)-1).Draw(rt, "construct"), Outer: rapid.IntRange(0, len(outers)-1).Draw(rt, "outer"),
 			Handler: rapid.SampledFrom(handlers).Draw(rt, "handler"), Kind: rapid.SampledFrom(errKinds).Draw(rt, "kind")}
+		if stopIterOK(catalogue[c.Construct]) && rapid.IntRange(0, 4).Draw(rt, "stopiter") == 0 {
+			c.Kind = "StopIterErr"
+		}
 		run(rt, c, true)
 	})
 }
